@@ -5,8 +5,8 @@
 #   3. the demonstration fails with the change and passes without it.
 # usage: confirm_seeded.sh <seeded-dir>      (dir has patch.diff, demo.c [, build_and_run.sh]); writes <dir>/confirm.log
 D=$(realpath "$1"); WT=/tmp/confwt_$$; LOG="$D/confirm.log"; : > "$LOG"
-say() { echo "$@" | tee -a "$LOG"; }
-git -C /repo worktree add --detach "$WT" HEAD >/dev/null 2>&1 || { say "cannot create worktree"; exit 3; }
+say "base: ${BASE:-HEAD} = $(git -C /repo rev-parse --short ${BASE:-HEAD})" 2>/dev/null; say() { echo "$@" | tee -a "$LOG"; }
+git -C /repo worktree add --detach "$WT" "${BASE:-HEAD}" >/dev/null 2>&1 || { say "cannot create worktree"; exit 3; }
 cleanup() { git -C /repo worktree remove --force "$WT" >/dev/null 2>&1; rm -rf "$WT"; }
 trap cleanup EXIT
 demo() {  # $1 = label ; builds demo.c against the tree's current sources (no sanitizers unless demo asks) and runs it
